@@ -519,3 +519,48 @@ Proof.
   unfold spacing_after, spacing_before. fold d in Ha, Hb. rewrite Ha, Hb.
   split; apply txt_filter_nonempty.
 Qed.
+
+(* ---------- the getter against the text-adjacent run ---------- *)
+Lemma filter_skip_empty l : filter nonempty (skip_empty l) = filter nonempty l.
+Proof.
+  induction l as [|t r IH]; [reflexivity|]. cbn [skip_empty filter]. unfold nonempty at 2.
+  destruct (is_empty t) eqn:E; cbn [negb]; [exact IH|].
+  cbn [filter]. unfold nonempty at 1. rewrite E. reflexivity.
+Qed.
+
+Lemma sp_run_filter_run R x : Forall Spacing R ->
+  sp_run (filter nonempty (R ++ x)) = filter nonempty R ++ sp_run (filter nonempty x).
+Proof.
+  intros H. rewrite filter_app. apply sp_run_app.
+  apply Forall_forall. intros t Ht. apply filter_In in Ht as [Ht _]. rewrite Forall_forall in H. apply H, Ht.
+Qed.
+
+Lemma text_run_decomp l :
+  text_run l = find_spacing l ++ sp_run (filter nonempty (skip_empty (sp_rest (skip_empty l)))).
+Proof.
+  unfold text_run, find_spacing. rewrite <- (filter_skip_empty l).
+  rewrite (run_rest (skip_empty l)) at 1.
+  rewrite sp_run_filter_run by apply sp_run_all. rewrite filter_skip_empty. reflexivity.
+Qed.
+
+(* partial: when no zero-width mark splits the run, the getter returns the text-adjacent run *)
+Theorem get_text_partial l : split_by_mark l = false -> find_spacing l = text_run l.
+Proof.
+  unfold split_by_mark. intros H. rewrite text_run_decomp.
+  pose proof (skip_empty_head (sp_rest (skip_empty l))) as Hh.
+  destruct (skip_empty (sp_rest (skip_empty l))) as [|t r].
+  - cbn. symmetry. apply app_nil_r.
+  - cbn in Hh. cbn [filter]. unfold nonempty at 1. rewrite Hh. cbn [negb sp_run]. rewrite H.
+    symmetry. apply app_nil_r.
+Qed.
+
+(* ... and only then: with a mark in the run the getter returns a proper prefix *)
+Theorem get_text_split l : split_by_mark l = true -> txt (find_spacing l) <> txt (text_run l).
+Proof.
+  unfold split_by_mark. intros H. rewrite text_run_decomp.
+  pose proof (skip_empty_head (sp_rest (skip_empty l))) as Hh.
+  destruct (skip_empty (sp_rest (skip_empty l))) as [|t r]; [discriminate|].
+  cbn in Hh. cbn [filter]. unfold nonempty at 1. rewrite Hh. cbn [negb sp_run]. rewrite H.
+  rewrite txt_app, txt_cons. intros E. apply (f_equal (@length Z)) in E.
+  rewrite !app_length in E. unfold is_empty in Hh. destruct (text t); [discriminate|]. cbn in E. lia.
+Qed.
